@@ -200,6 +200,8 @@ func (e *Explorer) explore(sc *world.Scenario, prefix []int, devs int) bool {
 	st.Outcomes[r.fp] = struct{}{}
 	if nondefault {
 		st.Nontrivial[r.fp] = struct{}{}
+	} else if sc.InputEnum {
+		st.Nontrivial[r.fp^hash(sc.Name)] = struct{}{}
 	}
 	needReplay := len(prefix) == 0 || len(r.viols) > 0 || (e.Replay > 0 && st.Execs%int64(e.Replay) == 0)
 	if needReplay {
